@@ -147,11 +147,18 @@ func runFSO(cfg config) {
 
 	ofs := osfs.New() // created outside the chroot (its identity manager reads the host's user database once)
 
+	// the implementation under test: memfs (default) or orefafs (symlink-free universe: OrefaFS does not
+	// advertise FeatSymlink, so Symlink / Readlink / EvalSymlinks calls are not generated for it)
+	fsName := os.Getenv("VERIF_FSO_FS")
+	if fsName == "" {
+		fsName = "memfs"
+	}
+
 	// the oracle side of one history
 	runOracle := func(i int, um int, ops []string, snapmode string) string {
 		j := enterJail(fmt.Sprintf("%s/h%d", scratch, i))
 		defer j.leave()
-		ref := newFSWorld("memfs", "linux", um)
+		ref := newFSWorld(fsName, "linux", um)
 		buildLike(ref.snapshotEntries())
 		syscall.Umask(um)
 		w := &fsWorld{base: ofs, views: []avfs.VFS{ofs}}
@@ -179,7 +186,7 @@ func runFSO(cfg config) {
 			parts := strings.Split(l, " | ")
 			hd := strings.Fields(parts[0])
 			um := atoi(hd[2])
-			w := newFSWorld("memfs", "linux", um)
+			w := newFSWorld(hd[0], "linux", um)
 			var outs []string
 			dummy := 0
 			for _, op := range parts[1:] {
@@ -204,8 +211,8 @@ func runFSO(cfg config) {
 	lens := 0
 	for i := 0; i < nh; i++ {
 		um := r.pick2([]int{0o22, 0o22, 0, 0o77, 0o27})
-		hdr := fmt.Sprintf("memfs linux %d md5", um)
-		w := newFSWorld("memfs", "linux", um)
+		hdr := fmt.Sprintf("%s linux %d md5", fsName, um)
+		w := newFSWorld(fsName, "linux", um)
 		g := &fsGen{r: r, w: w, admin: mode != "dac", nviews: 1, single: true, clean: true, noEval: mode != "sym", dac: mode == "dac"}
 		if mode == "sym" {
 			g.links = 3
@@ -228,6 +235,9 @@ func runFSO(cfg config) {
 					continue
 				}
 				if !inUniverse(op) {
+					continue
+				}
+				if fsName == "orefafs" && (strings.HasPrefix(op, "SL ") || strings.HasPrefix(op, "RL ") || strings.HasPrefix(op, "ES ")) {
 					continue
 				}
 				if mode == "dac" && strings.HasPrefix(op, "RA ") {
